@@ -142,6 +142,16 @@ def main(argv):
                 if hasattr(mod, "degen_case"):
                     mod.degen_case(case, i)
                 LOG.n("degenerate_cases")
+        rj = getattr(mod, "REJECTED", None)
+        if rj and i % 13 == 5 and isinstance(case, dict) and isinstance(case.get(rj), list) and not case.get("scale"):
+            # every thirteenth case starts with a call that the library rejects (it raises); the legal call under test follows
+            from vmon.checks.common import REJECTED_KINDS
+            op = {"op": "rejected", "kind": REJECTED_KINDS[(i // 13) % len(REJECTED_KINDS)]}
+            if case[rj] and isinstance(case[rj][0], list):
+                case[rj][0] = [op] + case[rj][0]
+            else:
+                case[rj] = [op] + case[rj]
+            LOG.n("rejected_call_first_cases")
         dr = getattr(mod, "DRUMS", None)
         if dr and i % 11 == 7 and isinstance(case, dict) and case.get(dr) is not None:
             # every eleventh case is moved onto the drum channel 9 (and 15 / 10 / 8 for further channels): no operation of the
